@@ -1,5 +1,6 @@
 import VelaVerif.Lemmas.SchedMem
 import VelaVerif.Lemmas.SchedLive
+import VelaVerif.Lemmas.SchedFast
 import VelaVerif.Spec.SchedMem
 /-!
 # C12 / C02 — what the scheduler assumes a schedule needs is what the schedule really needs
@@ -282,5 +283,42 @@ theorem peakUsage_ge (u : List Int) (t : Nat) (ht : t < u.length) : u[t] ≤ pea
     bytes alive together give a negative entry (`np.int32`). -/
 theorem snapshot_wraps_witness :
     temporalUsage [⟨0, 2, 2147483632, true⟩, ⟨0, 2, 32, true⟩] 0 = .ok [-2147483632, -2147483632] := by rfl
+
+/-! ## (b) what stays in fast storage fits the limit (the Dedicated-SRAM clause of C02 at the level of live ranges) -/
+
+/-- **fast_storage_within_limit (b).**  `use_fast_storage_for_feature_maps(schedule, staging_limit)` after the extraction of
+    the live ranges, for **every** set of ranges (any times, sizes, which of them the scheduler may move — `scratched_fms` —,
+    any access scores) and every limit: whenever the function returns (its final assertion included), then at every tick
+    `t < current_time + 2` the ranges of fast storage that remain — those it may not move plus the movable ones `evict` was not
+    called for — need at most `max(limit, what the immovable ones need on their own)` (`Spec.SchedMem.FastStorageFits`):
+    in Dedicated-SRAM configurations, where the limit is `arena_cache_size`, the feature maps the scheduler itself puts into
+    the SRAM cache never push its usage above the configured size.
+    Hypotheses: the identities of the ranges are distinct, every movable range belongs to the target area (both hold for
+    `lr_graph.lrs` of a graph extracted for one area; checked on every real call by the harness), no tick holds 2 GiB.
+    Not claimed: that the final assertion never fires (it did before repair C13-36; `fastComponents` models it and the theorem
+    covers the runs in which it holds) — see `design.d/SchedMem.md`. -/
+theorem fast_storage_within_limit (lrs : List FLR) (ct : Nat) (limit : Int) (r : FSResult)
+    (hids : (lrs.map (·.id)).Nodup) (harea : ∀ lr ∈ lrs, lr.scratched = true → lr.inArea = true)
+    (hb : ∀ t, Spec.SchedMem.usageAt ((lrs.map (·.tlr)).filterMap TLR.toRng) t < 2147483648)
+    (h : useFastStorage lrs ct limit = .ok r) :
+    Spec.SchedMem.FastStorageFits (frngs lrs r.st.evicted) limit (ct + 2) :=
+  useFastStorage_fits lrs ct limit r hids harea (by intro t; rw [← usageAt_toRng]; exact hb t) h
+
+/-- the loop "Force all OFMs to fast-storage" moves only what the Spec allows: no feature map that is read outside the NPU
+    subgraph, no variable tensor write (the guard seeded change C12-r3m2 weakened) -/
+theorem forced_to_fast_allowed (cascade nDependants : Nat) (outsideConsumer varWrite : Bool) :
+    Spec.SchedMem.MoveAllowed (forcedToFast cascade nDependants outsideConsumer varWrite) outsideConsumer varWrite := by
+  unfold Spec.SchedMem.MoveAllowed forcedToFast
+  cases outsideConsumer <;> cases varWrite <;> simp
+
+/-! Non-vacuity: limit 100; an immovable range of 40 bytes on ticks 0..3, movable ranges of 30 bytes (ticks 0..1, score 5),
+50 bytes (ticks 1..3, score 9) and 200 bytes (ticks 2..3).  The 200-byte range can never fit and is evicted first; the two
+others compete (40 + 30 + 50 > 100 at tick 1) and the one with the lower score is evicted. -/
+def nvLrs : List FLR :=
+  [⟨0, 0, 3, 40, true, false, 0⟩, ⟨1, 0, 1, 30, true, true, 5⟩, ⟨2, 1, 3, 50, true, true, 9⟩, ⟨3, 2, 3, 200, true, true, 1⟩]
+
+example : (match useFastStorage nvLrs 2 100 with
+    | .ok r => some (r.entered, r.st.evicted, r.st.kept, r.st.maxU, r.fixed)
+    | .error _ => none) = some (true, [3, 1], [2], [40, 90, 90, 90], [40, 40, 40, 40]) := by decide
 
 end VelaVerif.Props.C12Sched
